@@ -113,3 +113,38 @@ Theorem C01_ring_points : forall ops s s', R.run s ops = Some s' ->
   (length (R.all_pts s') <= length (R.all_pts s) + length (flat_map RP.op_point ops))%nat.
 Proof. exact RP.run_points. Qed.
 Print Assumptions C01_ring_points.
+
+(* the coupling invariant between Actives and OutRecs (RW.wf: a ring with points is non-empty and either closed or
+   coupled to two DIFFERENT edges -- its front and its back edge -- that point back to it; an emptied OutRec has no
+   edges; every hot edge is the front or back edge of the OutRec it points to) holds in EVERY state reachable by
+   operation sequences in which AddLocalMinPoly is only applied to cold edges *)
+Module RW := Clip.proofs.RingsWf.
+
+Theorem C01_ring_coupling_invariant : forall ops s,
+  RW.valid_trace R.init ops -> R.run R.init ops = Some s -> RW.wf s.
+Proof. exact RW.reachable_wf. Qed.
+Print Assumptions C01_ring_coupling_invariant.
+
+(* AddLocalMaxPoly makes both edges cold and keeps the invariant, whether it closes a ring or joins two *)
+Theorem C01_ring_local_max : forall s e1 e2 p s',
+  RW.wf s -> e1 <> e2 -> R.add_local_max_poly s e1 e2 p = Some s' ->
+  RW.wf s' /\ R.eo s' e1 = None /\ R.eo s' e2 = None.
+Proof. exact RW.add_local_max_poly_wf. Qed.
+Print Assumptions C01_ring_local_max.
+
+(* ... and under the invariant the primitives dereference no null pointer where the engine uses them: AddOutPt on a
+   hot edge; AddLocalMaxPoly on two different hot edges lying on opposite sides (the case the Sweep1D invariant
+   guarantees at every maxima pair, C11_never_fails_partial) *)
+Theorem C01_ring_defined : forall s,
+  RW.wf s ->
+  (forall e i p, R.eo s e = Some i -> exists s', R.add_out_pt s e p = Some s') /\
+  (forall e1 e2 i1 i2 o1 o2 p, e1 <> e2 -> R.eo s e1 = Some i1 -> R.eo s e2 = Some i2 ->
+     nth_error (R.recs s) i1 = Some o1 -> nth_error (R.recs s) i2 = Some o2 ->
+     R.is_edge (R.fe o1) e1 <> R.is_edge (R.fe o2) e2 ->
+     exists s', R.add_local_max_poly s e1 e2 p = Some s').
+Proof.
+  intros s W. split.
+  - intros e i p H. exact (RW.add_out_pt_defined s e i W H p).
+  - intros. eapply RW.add_local_max_poly_defined; eassumption.
+Qed.
+Print Assumptions C01_ring_defined.
